@@ -262,7 +262,7 @@ func VerifRTCases(pairs bool) []VerifRTCase {
 			run("one-hot:"+f, []string{f})
 		}
 		run("all-set", names)
-		if pairs {
+		if pairs || len(names) <= 6 { // small views (e.g. the four key fields of KeySharePrivateKeys): all pairs always
 			for i := range names {
 				for j := i + 1; j < len(names); j++ {
 					run("pair:"+names[i]+"+"+names[j], []string{names[i], names[j]})
